@@ -350,11 +350,14 @@ enum Op {
     SignIcarus,
     SignDaedalus,
     SetBody,
+    /// set_body with ANOTHER ENCODING of the body the object already holds (the fee head widened):
+    /// equal as a value, different bytes, so a different hash
+    SetBodyReencoded,
     SetAux,
     SetValid,
     SetWs,
 }
-const OPS: [Op; 12] = [Op::AddVkey(2), Op::AddVkey(3), Op::AddVkeyPresent, Op::SignVkey, Op::AddBoot(2), Op::AddBootPresent, Op::SignIcarus, Op::SignDaedalus, Op::SetBody, Op::SetAux, Op::SetValid, Op::SetWs];
+const OPS: [Op; 13] = [Op::SetBodyReencoded, Op::AddVkey(2), Op::AddVkey(3), Op::AddVkeyPresent, Op::SignVkey, Op::AddBoot(2), Op::AddBootPresent, Op::SignIcarus, Op::SignDaedalus, Op::SetBody, Op::SetAux, Op::SetValid, Op::SetWs];
 
 thread_local! {
     static KEYS: (PrivateKey, Bip32PrivateKey, LegacyDaedalusPrivateKey, ByronAddress) = {
@@ -459,6 +462,23 @@ fn apply_op(ft: &mut FixedTransaction, m: &mut Model, op: Op) -> Result<(), (Str
             ft.set_body(&b).map_err(|e| ("C04/set_body-rejects".to_string(), format!("{:?}", e)))?;
             m.hash = blake2b256(&b);
             m.body = b;
+        }
+        Op::SetBodyReencoded => {
+            let mut n = refcbor::parse(&m.body).map_err(|e| ("C04/harness-cannot-parse-body".to_string(), format!("{:?}", e)))?;
+            if let Kind::Map(entries) = &mut n.kind {
+                for (k, v) in entries.iter_mut() {
+                    if k.as_uint() == Some(2) {
+                        let wide = v.clone().with_width(8);
+                        *v = if refcbor::emit(&wide) == refcbor::emit(v) { v.clone().with_width(4) } else { wide };
+                    }
+                }
+            }
+            let b = refcbor::emit(&n);
+            if b != m.body {
+                ft.set_body(&b).map_err(|e| ("C04/set_body-rejects".to_string(), format!("{:?}", e)))?;
+                m.hash = blake2b256(&b);
+                m.body = b;
+            }
         }
         Op::SetAux => {
             let a = alt_aux();
@@ -668,6 +688,7 @@ fn sc_fixed_tx(max_ops: usize) -> impl Fn(&mut Ctx) + Sync {
                 Op::SignIcarus => "after-sign_icarus",
                 Op::SignDaedalus => "after-sign_daedalus",
                 Op::SetBody => "after-set_body",
+                Op::SetBodyReencoded => "after-set_body-with-another-encoding-of-the-same-body",
                 Op::SetAux => "after-set_auxiliary_data",
                 Op::SetValid => "after-set_is_valid",
                 Op::SetWs => "after-set_witness_set",
@@ -1015,7 +1036,7 @@ pub fn scenario(name: &str, tier: Tier) -> Option<BoxedScenario> {
 
 pub fn run(tier: Tier, seed: u64) -> i32 {
     let mut rep = Report::new(P, tier, seed);
-    rep.rule = "fixed_tx: 5 base transactions (the pre-Alonzo 3-element layout with metadata; minimal; full Conway body + all 8 witness fields + tag-259 auxiliary data, sets tagged; the same untagged with is_valid=false; legacy array redeemers + Shelley metadata, witness keys out of order) as refcbor trees x every tree with <= B encoding deviations (menu per node: each wider head, indefinite container, string in 1 / 2 chunks / with an empty first chunk, adjacent map entries swapped, map entry repeated, array element repeated, set tag dropped / added) x load path {from_bytes, from_hex, new/new_with_auxiliary from the cut-out parts, new_from_body_bytes from the body span alone} x every history of <= L operations over {add_vkey_witness new x2 / already present, sign_and_add_vkey_signature, add_bootstrap_witness new / present, sign icarus, sign daedalus, set_body, set_auxiliary_data, set_is_valid, set_witness_set}. After load and after every operation: raw_body, raw_auxiliary_data, transaction_hash, and in to_bytes the body span, the auxiliary span, is_valid and every untouched witness field's value span are the input's bytes (or the setter's argument); a touched field holds the old elements then the new ones once each; signatures added by the sign helpers verify (cryptoxide) over Blake2b-256 of the current raw body; the output reloads to itself. datum: 7 base datums x <= B deviations x 7 containers (stand-alone + from_hex, PlutusList definite/indefinite, witness set, redeemer, inline datum of an output, plain Transaction): the datum's bytes come back verbatim and hash_plutus_data == Blake2b-256(input). block: the two rich bodies x <= B deviations inside a block: FixedBlock/FixedTransactionBody original_bytes and tx_hash.".into();
+    rep.rule = "fixed_tx: 5 base transactions (the pre-Alonzo 3-element layout with metadata; minimal; full Conway body + all 8 witness fields + tag-259 auxiliary data, sets tagged; the same untagged with is_valid=false; legacy array redeemers + Shelley metadata, witness keys out of order) as refcbor trees x every tree with <= B encoding deviations (menu per node: each wider head, indefinite container, string in 1 / 2 chunks / with an empty first chunk, adjacent map entries swapped, map entry repeated, array element repeated, set tag dropped / added) x load path {from_bytes, from_hex, new/new_with_auxiliary from the cut-out parts, new_from_body_bytes from the body span alone} x every history of <= L operations over {add_vkey_witness new x2 / already present, sign_and_add_vkey_signature, add_bootstrap_witness new / present, sign icarus, sign daedalus, set_body (another body / another encoding of the same body), set_auxiliary_data, set_is_valid, set_witness_set}. After load and after every operation: raw_body, raw_auxiliary_data, transaction_hash, and in to_bytes the body span, the auxiliary span, is_valid and every untouched witness field's value span are the input's bytes (or the setter's argument); a touched field holds the old elements then the new ones once each; signatures added by the sign helpers verify (cryptoxide) over Blake2b-256 of the current raw body; the output reloads to itself. datum: 7 base datums x <= B deviations x 7 containers (stand-alone + from_hex, PlutusList definite/indefinite, witness set, redeemer, inline datum of an output, plain Transaction): the datum's bytes come back verbatim and hash_plutus_data == Blake2b-256(input). block: the two rich bodies x <= B deviations inside a block: FixedBlock/FixedTransactionBody original_bytes and tx_hash.".into();
     rep.assume("only inputs the decoder accepts are judged (rejecting an encoding is C01/C02's subject); per deviation kind at least one accepted input is required (required_hits), so acceptance is not vacuous");
     rep.assume("the order of witness-set keys in the output and the encoding of a touched signature field are not constrained by the property");
     rep.trusted_base = vec!["harness/src/refcbor.rs (spans)".into(), "cryptoxide blake2b / ed25519".into()];
